@@ -3,6 +3,7 @@ package main
 import (
 	"fmt"
 	"os"
+	"os/exec"
 	"strings"
 	"time"
 
@@ -663,7 +664,12 @@ func workC18(res *WorkerResult, start time.Time) {
 				rep = rep[:6000]
 			}
 			v = &Violation{Property: "C18", Kind: "race", FailOp: raceFuncs(rep), Class: "race", Detail: rep, Ops: allOpNames(cs)}
-			rf := ReplayFile{Property: "C18", Violation: v, Seed: *flagSeed, Run: run, Tags: *flagTags, C18: cs}
+			from := map[string]int{"clients": cs.Clients, "ops": totalOps(cs), "switches": len(cs.Tape)}
+			if len(res.Violations) < 3 {
+				// the detector reports a given race once per process, so candidates are tried in fresh processes
+				cs = minimiseRace(cs, 40)
+			}
+			rf := ReplayFile{Property: "C18", Violation: v, Seed: *flagSeed, Run: run, Tags: *flagTags, C18: cs, From: from}
 			path := saveReplay(&rf)
 			res.Violations = append(res.Violations, rf)
 			res.Replays = append(res.Replays, path)
@@ -743,4 +749,93 @@ func raceFuncs(rep string) string {
 		}
 	}
 	return strings.Join(fns, " | ")
+}
+
+func totalOps(cs *C18Case) int {
+	n := 0
+	for _, p := range cs.Programs {
+		n += len(p)
+	}
+	return n
+}
+
+// raceRecurs re-executes a case in a fresh process of this binary and reports whether the race detector fires again.
+func raceRecurs(cs *C18Case) bool {
+	dir, err := os.MkdirTemp("", "tsim-race-")
+	if err != nil {
+		return false
+	}
+	defer os.RemoveAll(dir)
+	path := dir + "/case.json"
+	if writeJSON(path, &ReplayFile{Property: "C18", C18: cs, Tags: *flagTags, Violation: &Violation{Property: "C18", Kind: "race"}}) != nil {
+		return false
+	}
+	cmd := exec.Command(os.Args[0], "-replay", path, "-racelog", dir+"/log", "-sites", fmt.Sprint(*flagSites))
+	cmd.Env = append(os.Environ(), "GORACE=log_path="+dir+"/log halt_on_error=0 exitcode=0", "GOMAXPROCS=1")
+	if err := cmd.Run(); err != nil {
+		if ee, ok := err.(*exec.ExitError); ok {
+			return ee.ExitCode() == 1
+		}
+	}
+	return false
+}
+
+// minimiseRace drops clients and then operations while a fresh process still reports a race.
+func minimiseRace(cs *C18Case, budget int) *C18Case {
+	clone := func(c *C18Case) *C18Case {
+		n := *c
+		n.Programs = make([][]Op, len(c.Programs))
+		for i := range c.Programs {
+			n.Programs[i] = append([]Op(nil), c.Programs[i]...)
+		}
+		n.Tape = append([]Switch(nil), c.Tape...)
+		return &n
+	}
+	best := cs
+	if !raceRecurs(best) {
+		return cs // does not even recur unminimised: keep the original for diagnosis
+	}
+	try := func(c *C18Case) bool {
+		if budget <= 0 {
+			return false
+		}
+		budget--
+		if raceRecurs(c) {
+			best = c
+			return true
+		}
+		return false
+	}
+	for c := best.Clients - 1; c >= 0 && best.Clients > 2; c-- {
+		cand := clone(best)
+		cand.Programs = append(cand.Programs[:c], cand.Programs[c+1:]...)
+		cand.Clients--
+		var tp []Switch
+		for _, s := range cand.Tape {
+			if s.C == c || s.Next == c {
+				continue
+			}
+			if s.C > c {
+				s.C--
+			}
+			if s.Next > c {
+				s.Next--
+			}
+			tp = append(tp, s)
+		}
+		cand.Tape = tp
+		try(cand)
+	}
+	for c := 0; c < best.Clients; c++ {
+		for chunk := (len(best.Programs[c]) + 1) / 2; chunk >= 1; chunk /= 2 {
+			for i := 0; i+chunk <= len(best.Programs[c]) && budget > 0; {
+				cand := clone(best)
+				cand.Programs[c] = append(cand.Programs[c][:i], cand.Programs[c][i+chunk:]...)
+				if !try(cand) {
+					i += chunk
+				}
+			}
+		}
+	}
+	return best
 }
